@@ -1,7 +1,7 @@
 import RotondaModel.Model.GateReconf
 /-! Line driver for the GateReconf model.  One case per input line:
     `ccap=<n>|<token> <token> …|…`; flags `clonesender=as-written|repaired`,
-    `notifypanic=as-written|repaired`.  The output is `bad-step <i> <token>` if the i-th recorded
+    `notifypanic=as-written|repaired`, `followedit=as-written|repaired`.  The output is `bad-step <i> <token>` if the i-th recorded
     action is not an enabled step of the model (or the command kind the real gate announced is not
     the head of the model's queue), otherwise the canonical final observation.
 
@@ -137,5 +137,6 @@ partial def loop (v : Variant) (h : IO.FS.Stream) (out : IO.FS.Stream) : IO Unit
 def main (args : List String) : IO Unit := do
   let v : Variant :=
     { staleSender := args.contains "clonesender=as-written",
-      notifyPanics := !args.contains "notifypanic=repaired" }
+      notifyPanics := !args.contains "notifypanic=repaired",
+      followEdits := !args.contains "followedit=repaired" }
   loop v (← IO.getStdin) (← IO.getStdout)
